@@ -17,7 +17,7 @@ def gen(rnd, d):
 def run(v):
     big = D.alt_family(SEED + 1070, 40, maxlen=4, budget=10**9)
     cov = run_cmdline_property(v, families(v.tier), None, replay_cfg="MC_GroupLine_replay.cfg", module="MC_GroupLine",
-                               signature=cmdline_sig.signature, trace_module="GroupLineTrace",
+                               signature=cmdline_sig.signature, ledger_every=(6 if v.tier == "quick" else 1), trace_module="GroupLineTrace",
                                driver={"defs": big, "n": 15000 if v.tier == "quick" else 300000, "gen": gen})
     cov["rule"] = ("choices over 2..4 branches drawn from {req_flag, argument, two-item groups with optional members} under "
                    "bare/optional/many/some, next to other options and positionals; all lines up to maxlen in every order; "
